@@ -103,6 +103,29 @@ PROPS = {
         ],
         trusted=STD_TRUST,
     ),
+    "C08": dict(
+        units=["parse"],
+        level="proof",
+        min_obligations=25,
+        replay_family="c08",
+        explanation="parse_token - the only place parser options are consulted - is extracted from /repo and verified against a declarative classifier written from "
+                    "the property statement, one clause per option: letter-initial words (postfix keywords, nil under NilSymbol, t under TSymbol, else symbol, with the "
+                    "token text = the bytes up to the first symbol terminator, decoded as UTF-8), `:name` under ColonPrefix, `#:name` under Octothorpe (error when off), "
+                    "`#%name` under the Racket option (error when off), `(` / `[` under Brackets, `?c` under CharSyntax (symbol when R6RS), digit-initial tokens under "
+                    "leading_digit_symbols, the quote shorthands ' ` , ,@ for every option set; each clause also pins how much input the token consumes. The Options "
+                    "builder/query API is verified field by field (each with_* sets exactly its own field: `r == Options { f: v, ..self }`; keyword flags by bit-vector "
+                    "reasoning), Options::new/default/elisp equal their documented field values. Non-interference follows where a clause pins the whole result: the clause "
+                    "mentions only the option it names.",
+        assumptions=[
+            "String::ends_with(':'), String::pop, String == &str are std: assumed specs over the char sequence (vx_ends_with_colon, vx_string_pop, vx_string_eq)",
+            "char::is_alphabetic is an uninterpreted predicate",
+            "Options::with_keyword_syntaxes (iterator fold with a closure) is not under contract",
+            "`a token is read as a number only if the whole token is a numeric literal` is NOT claimed: see not_covered",
+        ],
+        not_covered=["whole-token numeric check of digit/sign-initial tokens (known defect D7: `1+`, `1/2`, `1.5.6` are read from a prefix; not decided here)",
+                     "expansion of quote shorthands into two-element lists is decided structurally by C10's Datum::quotation clause and Value::list's contract, not re-stated here"],
+        trusted=STD_TRUST,
+    ),
     "C10": dict(
         units=["parse"],
         level="proof",
